@@ -241,15 +241,17 @@ check("C13", "concurrent use of one server is free of data races", "exploration"
       [R("^TestC13$", 6000, 12000, shards=(8, 16), timeout=(1800, 6000), rounds=(1, 3))], variant="race")
 
 check("C12", "no schedule can hang the registry", "exploration",
-      "rapid generator of concurrent programs on a vsync-instrumented build with injected delays after lock acquisitions; oracle = wait-for-graph cycle / stall monitor, cancellation and Close/Shutdown bounds",
+      "rapid generator of concurrent programs on a vsync-instrumented build with injected delays after lock acquisitions + rapid generator of request histories with injected file-system faults (vfs build); oracle = wait-for-graph cycle / stall monitor, cancellation and Close/Shutdown bounds, termination watchdog after a fault",
       "Sampling and perturbation of schedules: generated programs (chunked uploads against eviction and expiry with RepoUploadMax 1-4 and grace 5-50 ms, abandoned sessions, pipe-fed slow manifest bodies, cancelled "
       "requests, 1-5 ms GC ticker) run on a build whose mutexes record who waits for whom; generated delays of up to 300 us after a drawn subset of lock sites widen race windows. A cycle in the wait-for graph "
       "that persists over two monitor snapshots is an actual deadlock (reported with both acquisition sites and all olareg goroutine stacks); a second scenario runs Server.Run on loopback and calls Shutdown "
-      "while keep-alive clients are sending, with and without rate limit; a third keeps one repository held by a stalled manifest PUT for 1.2 s (many grace periods) while requests with cancelled contexts go to the same and to other repositories; a fourth calls Close while clients are still sending.",
+      "while keep-alive clients are sending, with and without rate limit; a third keeps one repository held by a stalled manifest PUT for 1.2 s (many grace periods) while requests with cancelled contexts go to the same and to other repositories; a fourth calls Close while clients are still sending; a fifth (vfs build) injects the fault instead of the schedule: "
+      "the k-th mutating file-system call of a generated request history (k uniform over the calls the history makes) fails with EIO, optionally a second one later, and every following request on both repositories, a collection and Close must return.",
       "Trusted: the check-time rewrite of sync.Mutex/sync.WaitGroup in olareg.go, internal/store, internal/cache to recording wrappers; liveness is approximated by bounded completion (20 s, 100x normal latency) and a "
       "stall is only called when the monitor itself kept ticking; hangs needing a specific interleaving of more than two lock sites may be missed.",
       "DESIGN.md §3 C12",
-      [R("^TestC12$", 3000, 40000, shards=(8, 16), timeout=(1200, 6000)), R("^TestC12Shutdown$", 96, 1600, shards=(4, 8), timeout=(1200, 6000)), R("^TestC12Holder$", 32, 480, shards=(8, 16), timeout=(1200, 6000)), R("^TestC12CloseUnderLoad$", 4000, 100000, shards=(8, 16), timeout=(1200, 6000))], variant="vsync")
+      [R("^TestC12$", 3000, 40000, shards=(8, 16), timeout=(1200, 6000)), R("^TestC12Shutdown$", 96, 1600, shards=(4, 8), timeout=(1200, 6000)), R("^TestC12Holder$", 32, 480, shards=(8, 16), timeout=(1200, 6000)), R("^TestC12CloseUnderLoad$", 4000, 100000, shards=(8, 16), timeout=(1200, 6000)),
+       R("^TestC12Faults$", 8000, 400000, shards=(8, 16), timeout=(1200, 6000), variant="vfs")], variant="vsync")
 
 check("C19", "every setting has its documented effect", "exploration",
       "rapid over Config values (defaults), over flag vectors of the built binary with a probe battery vs a behaviour table, over request/address/delay sequences in a synctest bubble vs the accounting-window model, and over signal moments",
